@@ -411,6 +411,45 @@ var sameLiteralTwice = func() []struct{ Src, In string } {
 
 func init() { directed = append(directed, sameLiteralTwice...) }
 
+// computed index keys and slice bounds: the key of an index is evaluated outside path tracking
+// (expbegin/expend) unless the compiler proves that needless; keys that are calls of functions
+// whose bodies navigate, defined by the user or builtins already compiled by an earlier use, in
+// every path context
+var computedKeys = func() []struct{ Src, In string } {
+	var out []struct{ Src, In string }
+	defs := []string{
+		"def k: .key;", "def k: .[0];", "def k: first;", "def k: \"a\";", "def k: 0;", "def k: .key | tostring;", "def k: keys[0];", "def k: .k2 | .k3;", "def k: if .key then .key else \"a\" end;", "def k: .key?;", "def k: (.key, \"a\");", "def k: .key as $x | $x;",
+		"def k: getpath([\"key\"]);", "def k: try .key catch \"a\";", "def k: .key // \"a\";", "def k: first(.key);", "def k: def kk: .key; kk;", "def kf(f): f; def k: kf(.key);", "def k: [.key][0];", "def k: {a: .key}.a;", "def k: label $l | .key, break $l;", "def k: reduce .key as $x (null; $x);", "def k: length - 1;", "def k: last;",
+	}
+	uses := []string{".[k]", ".[k]?", ".[k:]?", ".[:k]?", ".[k:k]?", "getpath([k])", ".a[k]?", ".[k][k]?", ".[k | tostring]?", "(.[k], .[k])?", ".[k]? | .[k]?", "(.[k]?)[0]?", "..[k]?"}
+	ctxs := []string{"U", "path(U)", "[paths(U)]", "(U) |= .", "(U) = 1", "del(U)", "pick(U)", "path(U | U)", "first, path(U)", "(first?, last?, (keys?[0])) as $w | path(U)", "path(first(U))", "[path(U)] | length", "to_entries? | length, (U)", "(U) += 1", "path(if true then U else . end)", "path(. as $d | U)", "def w(f): path(f); w(U)", "path(U) as $p | getpath($p)"}
+	ins := []string{`{"key":"a","a":{"key":"b","b":1,"a":2},"k2":{"k3":"a"}}`, `[1,"x",2,[0,1]]`, `["a",{"a":1}]`, `{"key":0}`, `[[0,[1]],1]`, `null`}
+	n := 0
+	for _, d := range defs {
+		for _, u := range uses {
+			for _, c := range ctxs {
+				n++
+				if n%3 != 0 { // a third of the product, spread evenly
+					continue
+				}
+				out = append(out, struct{ Src, In string }{d + " try (" + strings.ReplaceAll(c, "U", u) + ") catch \"E\"", ins[n%len(ins)]})
+			}
+		}
+	}
+	for _, b := range []string{"first", "last", "keys[0]", "length - 1", "min", "max", "add", "(to_entries[0].key)", "first(.[])", "(.[0] | tostring)", "input_line_number", "(\"a\" | ascii_downcase)", "(keys | first)", "(paths | first | first)", "nth(0)", "(.[0]? // 0)"} {
+		for _, c := range []string{"path(.[B])", "(B) as $w | path(.[B])", "B, path(.[B])", "[path(.[B]?), path(.[B]?)]", ".[B] |= .", "(B | tostring), (.[B] = 1)", "del(.[B])", "path(.[B:])", "B, path(.[B:])", "B, path(.[:B])", "B, [paths(.[B])]", "path(getpath([B]))", "B, path(getpath([B]))"} {
+			for k, in := range []string{`[1,"x",2,[0,1]]`, `{"a":"b","b":"a","0":1}`, `[0,1,2]`} {
+				if (len(b)+len(c)+k)%2 == 0 {
+					out = append(out, struct{ Src, In string }{"try (" + strings.ReplaceAll(c, "B", b) + ") catch \"E\"", in})
+				}
+			}
+		}
+	}
+	return out
+}()
+
+func init() { directed = append(directed, computedKeys...) }
+
 var directed = []struct{ Src, In string }{
 	{`.[1:2], .[1.5:2.5], .[-1:], .[null:1], .[1:null], .[:-1], .[10:], .[-10:2], .[1:1], .[2:1]`, `[1,2,3,4]`},
 	{`.[1:2], .[1.5:2.5], .[-1:], .[null:1], .[:-1], .[10:]`, `"abcdef"`},
